@@ -24,21 +24,28 @@ Do(e) == \/ e[1] = "SPStart" /\ SPStart
          \/ e[1] = "IdPLogoutRespond" /\ \E m \in net : m.t = "LogoutRequest" /\ m.id = e[2] /\ IdPLogoutRespond(m)
          \/ e[1] = "AttForgeLogout" /\ AttForgeLogout(e[2])
          \/ e[1] = "SPConsumeLogout" /\ \E m \in net : m = LogoutResp(e[2], e[3]) /\ SPConsumeLogout(m)
+         \/ e[1] = "IdPLogoutRequest" /\ IdPLogoutRequest(e[3])
+         \/ e[1] = "AttForgeLogoutRequest" /\ AttForgeLogoutRequest(e[3], e[4])
+         \/ e[1] = "SPConsumeLogoutRequest" /\ \E m \in net : m = IdpLogoutReq(e[2], e[3], e[4]) /\ SPConsumeLogoutRequest(m)
 
 \* the state derived from real values after event k of line i
 ObsPending(i, j)  == AsSet(St(i)[j].pending)
 ObsSessions(i, j) == { [subj |-> x[1], via |-> x[2]] : x \in AsSet(St(i)[j].sessions) }
 ObsLPending(i, j) == { [id |-> x[1], subj |-> x[2]] : x \in AsSet(St(i)[j].lpending) }
+ObsAnswered(i, j) == AsSet(St(i)[j].answered)      \* IdP LogoutRequests the real SP has answered so far
+Answered(n)       == { m.irt : m \in { x \in n : x.t = "SPLogoutResponse" } }
 
-Reset == /\ nreq' = 0 /\ pending' = {} /\ sessions' = {} /\ lpending' = {} /\ net' = {} /\ hist' = << >>
+Reset == /\ nreq' = 0 /\ pending' = {} /\ sessions' = {} /\ lpending' = {} /\ net' = {} /\ nidp' = 0 /\ hist' = << >>
 
 TInit == Init /\ l = 1 /\ k = 1 /\ bad = FALSE
 Step == /\ l <= Len(Trace) /\ k <= Len(Ev(l)) /\ ~bad
         /\ Do(Ev(l)[k])
         /\ pending' = ObsPending(l, k) /\ sessions' = ObsSessions(l, k) /\ lpending' = ObsLPending(l, k)
+        /\ Answered(net') = ObsAnswered(l, k)
         /\ k' = k + 1 /\ UNCHANGED <<l, bad>>
 Mismatch == /\ l <= Len(Trace) /\ k <= Len(Ev(l)) /\ ~bad
-            /\ ~ENABLED (Do(Ev(l)[k]) /\ pending' = ObsPending(l, k) /\ sessions' = ObsSessions(l, k) /\ lpending' = ObsLPending(l, k))
+            /\ ~ENABLED (Do(Ev(l)[k]) /\ pending' = ObsPending(l, k) /\ sessions' = ObsSessions(l, k) /\ lpending' = ObsLPending(l, k)
+                         /\ Answered(net') = ObsAnswered(l, k))
             /\ bad' = TRUE /\ UNCHANGED <<l, k, vars>>
 \* protocol-level properties on what the real components did
 ObsOK(o) == /\ o.idp_side_ok          \* every message the SP produced was parsed, verified and understood by the IdP
